@@ -41,12 +41,18 @@ EXPRADIX = {
     "rt_dec_er16": pack(10, 10, 16),
     "rt_dec_er2": pack(10, 10, 2),
 }
+# no digits required: a lone punctuation character is a number (zero) — used with special strings equal to punctuation
+NOREQ = {
+    "rt_noreq_mant": pack(10, flags=F["required_exponent_digits"]),
+    "rt_noreq_any": pack(10, flags=0),
+}
 
 
 def extra_formats():
     out = [("F", v, n) for n, v in DECIMAL.items()]
     out += [("F", v, n) for n, v in PREFIX.items()]
     out += [("F", v, n) for n, v in EXPRADIX.items()]
+    out += [("F", v, n) for n, v in NOREQ.items()]
     return out
 
 
@@ -54,4 +60,5 @@ def by_name():
     d = dict(DECIMAL)
     d.update(PREFIX)
     d.update(EXPRADIX)
+    d.update(NOREQ)
     return d
